@@ -74,6 +74,7 @@ def _(self, market_id: ATOM, selection_id: INT, handicap: REAL) -> Ref("RunnerCo
                                                     result == old(self._invested[(market_id, selection_id, handicap)])))
     ensures("new_context_is_fresh", implies(not old((market_id, selection_id, handicap) in self._invested),
                                             is_fresh(result) and is_fresh(result.live_trades) and is_fresh(result.trades)))
+    ensures("registered_under_its_key", (market_id, selection_id, handicap) in self._invested and self._invested[(market_id, selection_id, handicap)] == result)
 
 
 @contract("flumine/order/trade.py::Trade.complete_trade", tags=["C03"])
